@@ -4,7 +4,9 @@ from __future__ import annotations
 
 import sys
 
-CANARY_PATH = "/var/tmp/vlib_c19_canary"
+# one path per worker process: two checks running at the same time (one of them against a deliberately broken tree that does execute the
+# injected text) must not see each other's canary file
+CANARY_PATH = f"/var/tmp/vlib_c19_canary_{__import__('os').getpid()}"
 CANARY_MODULE = "vlib_c19_canary_module"
 EVENTS = []
 STATE = {"armed": False, "seen": 0}
